@@ -22,9 +22,8 @@ def run(ctx):
     if q:
         links.graph_replay(ctx, 3, 1, "lists", 2, ["ConsistentNow"], "C07")
     else:
-        links.graph_replay(ctx, 3, 2, "lists", 24, ["ConsistentNow"], "C07", timeout=3000)
-        links.graph_replay(ctx, 4, 1, "lists", 8, ["ConsistentNow"], "C07", timeout=3000)
-        links.graph_replay(ctx, 4, 2, "pairs", 16, ["ConsistentNow", "RTCanonical", "RTNever"], "C07", timeout=3000)
+        links.graph_replay(ctx, 3, 2, "lists", 24, ["ConsistentNow"], "C07", timeout=3000)      # 58.6 M transitions explored, 1/24 replayed
+        links.graph_replay(ctx, 4, 1, "pairs", 2, ["ConsistentNow", "RTCanonical", "RTNever"], "C07", timeout=3000)
     # ---- mode B: random histories, batch trace validation
     classes = links.simple_classes()
     traces = []
